@@ -184,4 +184,9 @@ def runCase (line : String) : String :=
   | "robust" :: _ => "unmodelled robust"
   | "determ" :: _ => "unmodelled determ"
   | "immut" :: _ => "unmodelled immut"
+  | "conc" :: _ =>
+    -- C04 race-detector rounds: the model side of a round is the theorem (every schedule of
+    -- confined threads gives each thread its sequential result and no race), so the expected
+    -- verdict of every round is `ok`
+    "ok"
   | _ => "bad-op"
